@@ -11,6 +11,9 @@ import TapkeeVerif.Proofs.SpectralLocal
 import Mathlib.LinearAlgebra.Matrix.Notation
 import Mathlib.Tactic.NormNum
 import TapkeeVerif.Proofs.CertGenSound
+import TapkeeVerif.Proofs.LocallyLinearFlatExact
+import TapkeeVerif.Proofs.LocallyLinearFlatHlle
+import TapkeeVerif.Proofs.Inertia
 /-!
 C08 property theorems: the sparse matrices assembled by `routines/locally_linear.hpp`
 (`linear_weight_matrix`, `tangent_weight_matrix`, `hessian_weight_matrix`) in closed matrix form.
@@ -151,10 +154,12 @@ example : (∀ i j : Fin 2, (fun (i j : Fin 2) => ((i.1 + j.1 : Nat) : ℚ)) i j
    intrinsic coordinates `T : Fin N → Fin d → K` and `U i` are the top-`d` eigenvectors of the centred local Gram
    matrix (contract `IsTopEig`, local rank exactly `d`), then the null space of `M − shift·I` is EXACTLY
    `span{1, T·₁, …, T·_d}`.
-   Proved here (`_partial`): the inclusion `⊇` for each coordinate function, with the consequence of the
-   eigen-contract taken as hypothesis `hflat` (each coordinate function restricted to a neighbourhood lies in
-   `span{1, columns of U i}`) together with orthonormality of `G_i = [rsk | U i]`.  Not proved: that `IsTopEig` on a
-   rank-`d` neighbourhood implies `hflat`, and the reverse inclusion (needs connectivity / genericity of `nb`). -/
+   NOW PROVED IN FULL in section "Flat manifold, LTSA" below: `flat_local_span` / `flat_local_orthonormal` derive `hflat` and
+   `horth` from the local eigensolver contract on flat data (general position `AffSpan` stated explicitly),
+   `ltsa_affine_in_nullspace` is the inclusion `⊇` from data-side hypotheses only, `ltsa_nullspace_exact` the equality under the
+   overlap / connectivity / cover condition, `ltsa_columns_affine_on_flat` the property's sentence about the returned columns.
+   The theorem below is the algebraic core (ANY field, hypotheses `hflat`, `horth` taken as given); it keeps its historical
+   name `_partial` because on its own it is only the inclusion `⊇` under contract-level hypotheses. -/
 theorem ltsa_affine_on_flat_partial (nb : Fin N → Fin k → Fin N) (rsk : K) (U : Fin N → Mat k d K) (shift : K)
     (T t0 : Fin N → Fin d → K) (C : Fin N → Fin d → Fin d → K)
     (hflat : ∀ i a c, T (nb i a) c = t0 i c + ∑ c', U i a c' * C i c' c)
@@ -342,10 +347,16 @@ theorem hlle_const_null (nb : Fin N → Fin k → Fin N) (sqrtO : K → K) (thr 
 /- FULL STATEMENT (flat manifold, HLLE): for data that are an affine image of intrinsic coordinates `T` (every
    neighbourhood of rank exactly `d`, `U i` the top-`d` eigenvectors of the centred local Gram matrix), with an exact
    square root and no vanishing Gram–Schmidt norm, the null space of `M` is EXACTLY `span{1, T·₁, …, T·_d}`.
-   Proved here (`_partial`): the inclusion `⊇`, with the Gram–Schmidt contract `hgs` and the local-span condition `hflat`
-   as hypotheses.  `gramSchmidt_orthogonal` below derives orthonormality and the prefix-span property of the as-written
-   modified Gram–Schmidt; the remaining plumbing from there to `hgs` (columns of `hlleYi0`, `colsumNorm` not firing,
-   `rightCols`) and the reverse inclusion are not proved. -/
+   Proved: the inclusion `⊇` — here (`_partial`, any field) with the Gram–Schmidt contract `hgs` and the local-span condition
+   `hflat` as hypotheses; in section "Flat manifold, HLLE" below from data-side hypotheses only (`hlle_affine_in_nullspace`):
+   `hgs` is now a THEOREM about the as-written sweep (`hlle_gs_contract`: `gramSchmidt_orthogonal` pushed through the
+   column-sum step, which provably never fires, and `rightCols(dp)`), and `hflat` follows from the local eigensolver contract
+   (`flat_local_span`).
+   NOT proved, and FALSE without a further genericity hypothesis: the reverse inclusion `⊆`.  A null vector is orthogonal, on
+   every neighbourhood, to the `dp` columns of `H_i` (`hlle_null_local_partial` below) — a space of dimension `k − dp`, which is
+   `span{1, U_i}` only when `k = 1 + d + dp` (the minimum `k`).  For larger `k` exactness depends on the rank of the
+   `N·dp` local Hessian functionals (`= N − d − 1` for generic samples, not for all: with every neighbourhood equal to the whole
+   sample the null space has dimension `N − dp > d + 1`); no overlap/connectivity condition on the graph alone implies it. -/
 theorem hlle_affine_on_flat_partial (nb : Fin N → Fin k → Fin N) (sqrtO : K → K) (thr : K) (U : Fin N → Mat k d K)
     (T t0 : Fin N → Fin d → K) (C : Fin N → Fin d → Fin d → K)
     (hgs : ∀ i, ∀ h ∈ hlleH sqrtO thr (U i), (∑ a, h.get a = 0) ∧ ∀ c, ∑ a, h.get a * U i a c = 0)
@@ -411,6 +422,27 @@ example : GsExact (K := ℚ) (k := 4)
   decide +kernel
 
 end GramSchmidt
+
+section GsContract
+variable {K : Type} [Field K] [LT K] [DecidableLT K] {k d : Nat}
+
+/-- **the Gram–Schmidt contract `hgs` is a theorem about the as-written sweep.**  With a square root exact on the norms that
+    occur and no vanishing remainder (`GsExact`) and a non-negative threshold (`1e-4`): every product column has sum EXACTLY
+    zero after the sweep, so `if (colsum > 1e-4) col /= colsum` never fires, `Yi.rightCols(dp)` is the tail of the swept
+    columns, and each of its columns sums to zero and is orthogonal to every tangent column. -/
+theorem hlle_gs_contract (sqrtO : K → K) (thr : K) (hthr : ¬ thr < 0) (U : Mat k d K)
+    (hE : GsExact sqrtO [] (hlleYi0 U)) :
+    hlleH sqrtO thr U = (gramSchmidt sqrtO [] (hlleYi0 U)).drop (1 + d) ∧
+    ∀ h ∈ hlleH sqrtO thr U, (∑ a, h.get a = 0) ∧ ∀ c, ∑ a, h.get a * U a c = 0 :=
+  ⟨hlleH_eq_drop (fun _ _ => rfl) sqrtO thr hthr U hE, hlleH_contract (fun _ _ => rfl) sqrtO thr hthr U hE⟩
+
+/-- non-vacuity: the ℚ instance of the `hgs` example above (threshold `1e-4`) -/
+example : (¬ (1 / 10000 : ℚ) < 0) ∧ GsExact (K := ℚ) (k := 4)
+    (fun x => if x = 4 then 2 else if x = 100 then 10 else if x = 2304 then 48 else 1) []
+    (hlleYi0 (d := 1) (fun a _ => ![1, -1, 7, -7] a)) := by
+  refine ⟨by norm_num, by decide +kernel⟩
+
+end GsContract
 
 /-! ## Spectral part (eigensolver contract `GenEigSystem` as hypothesis; `Proofs/SpectralLocal.lean`) -/
 
@@ -648,6 +680,256 @@ theorem hlle_end_to_end (nb : Fin N → Fin k → Fin N) (sqrtO : K → K) (thr 
     (by rw [hlle_const_null nb sqrtO thr U hgs M' hM]; rfl) hsimple
 
 end EndToEnd
+
+/-! ## Flat manifold, LTSA: "every LTSA column is an affine function of the intrinsic coordinates"
+
+Data side (`Proofs/LocallyLinearFlatLtsa.lean`): `N` samples `x_j = A·t_j + b` in `K^D` (`flatPoint`), `A : D × d` injective,
+`T j = t_j` the intrinsic coordinates, linear kernel `flatKernel A b T i j = ⟨x_i, x_j⟩`; the local eigensolver enters through
+its contract `Spectral.IsTopEig` on the centred local Gram matrix `localCentered κ (nb i)` the routine hands it.
+`AffSpan (nb i) T`: the neighbourhood is in general position (its intrinsic coordinates affinely span `K^d`).
+`Overlap nb T i i'`: the samples shared by two neighbourhoods affinely span `K^d`. -/
+
+section FlatLtsa
+open TapkeeVerif.SpectralLocal
+variable {K : Type} [Field K] [LinearOrder K] [IsStrictOrderedRing K] {N k d D : Nat}
+
+/-- **the local-span condition is a consequence of the local eigensolver contract** (hypothesis `hflat` of
+    `ltsa_affine_on_flat_partial` / `hlle_affine_on_flat_partial`): the centred local Gram matrix of flat data is
+    `(Tc Aᵀ)(Tc Aᵀ)ᵀ` of rank `≤ d`, so by the rank bridge `Spectral.kernel_of_rank_le` its top-`d` eigenvectors span the
+    centred intrinsic coordinates.  No general-position hypothesis is needed for this direction. -/
+theorem flat_local_span (A : Matrix (Fin D) (Fin d) K) (hA : ∀ v : Fin d → K, A *ᵥ v = 0 → v = 0)
+    (b : Fin D → K) (T : Fin N → Fin d → K) (nb : Fin N → Fin k → Fin N) (hk : (k : K) ≠ 0)
+    (U : Fin N → Mat k d K) (lam : Fin N → Fin d → K)
+    (heig : ∀ i, Spectral.IsTopEig (Mat.toM (localCentered (flatKernel A b T) (nb i))) (Mat.toM (U i)) (lam i)) :
+    ∀ i a c, T (nb i a) c
+      = locMean (nb i) T c + ∑ c', U i a c' * ((Mat.toM (U i))ᵀ * locTc (nb i) T) c' c :=
+  fun i a c => flat_hflat A hA b T (nb i) hk (U i) (lam i) (heig i) a c
+
+/-- **general position ⇒ the local bases `G_i = [1/√k | U_i]` are orthonormal** (hypothesis `horth` of
+    `ltsa_affine_on_flat_partial`, `ltsa_psd`; its part `hU` — zero column sums — of `ltsa_const_null`, `kltsa_end_to_end`):
+    when the neighbourhood's intrinsic coordinates affinely span, all `d` returned eigenvectors belong to non-zero eigenvalues
+    and lie in the span of the centred coordinates. -/
+theorem flat_local_orthonormal (A : Matrix (Fin D) (Fin d) K) (hA : ∀ v : Fin d → K, A *ᵥ v = 0 → v = 0)
+    (b : Fin D → K) (T : Fin N → Fin d → K) (nb : Fin N → Fin k → Fin N) (rsk : K) (h1 : rsk * rsk * (k : K) = 1)
+    (hgp : ∀ i, AffSpan (nb i) T) (U : Fin N → Mat k d K) (lam : Fin N → Fin d → K)
+    (heig : ∀ i, Spectral.IsTopEig (Mat.toM (localCentered (flatKernel A b T) (nb i))) (Mat.toM (U i)) (lam i)) :
+    ∀ i, (Mat.toM (ltsaG rsk (U i)))ᵀ * Mat.toM (ltsaG rsk (U i)) = 1 :=
+  fun i => flat_horth A hA b T (nb i) rsk h1 (hgp i) (U i) (lam i) (heig i)
+
+/-- **LTSA on flat data, inclusion `⊇`, from data-side hypotheses only**: every affine function of the intrinsic coordinates
+    is a null vector of `M − shift·1`. -/
+theorem ltsa_affine_in_nullspace (nb : Fin N → Fin k → Fin N) (rsk : K) (U : Fin N → Mat k d K) (shift : K)
+    (A : Matrix (Fin D) (Fin d) K) (hA : ∀ v : Fin d → K, A *ᵥ v = 0 → v = 0) (b : Fin D → K)
+    (T : Fin N → Fin d → K) (h1 : rsk * rsk * (k : K) = 1) (lam : Fin N → Fin d → K)
+    (heig : ∀ i, Spectral.IsTopEig (Mat.toM (localCentered (flatKernel A b T) (nb i))) (Mat.toM (U i)) (lam i))
+    (hgp : ∀ i, AffSpan (nb i) T) (c0 : K) (w : Fin d → K) :
+    (Mat.toM (ltsaM nb rsk U shift) - shift • (1 : Matrix (Fin N) (Fin N) K)).mulVec
+      (fun j => c0 + ∑ c, T j c * w c) = 0 := by
+  have hk : (k : K) ≠ 0 := by
+    intro h0
+    rw [h0, mul_zero] at h1
+    exact zero_ne_one h1
+  have hflat := flat_local_span A hA b T nb hk U lam heig
+  have horth := flat_local_orthonormal A hA b T nb rsk h1 hgp U lam heig
+  refine ltsa_null_of_local nb rsk U shift _ fun s => ?_
+  have e : (fun a => c0 + ∑ c, T (nb s a) c * w c)
+      = fun a => (c0 + ∑ c, locMean (nb s) T c * w c)
+          + ∑ c', U s a c' * ∑ c, ((Mat.toM (U s))ᵀ * locTc (nb s) T) c' c * w c :=
+    funext fun a => affine_of_hflat T (nb s) (U s) _ _ (hflat s) c0 w a
+  rw [e]
+  exact ltsa_local_affine rsk (U s) (horth s) _ _
+
+/-- **LTSA on flat data, the null space EXACTLY**: if every neighbourhood is in general position, the neighbourhoods cover the
+    samples and are connected through overlaps that affinely span (consecutive neighbourhoods share `d+1` affinely
+    independent samples), then the null space of `M − shift·1` is exactly the affine functions of the intrinsic coordinates. -/
+theorem ltsa_nullspace_exact (nb : Fin N → Fin k → Fin N) (rsk : K) (U : Fin N → Mat k d K) (shift : K)
+    (A : Matrix (Fin D) (Fin d) K) (hA : ∀ v : Fin d → K, A *ᵥ v = 0 → v = 0) (b : Fin D → K)
+    (T : Fin N → Fin d → K) (h1 : rsk * rsk * (k : K) = 1) (lam : Fin N → Fin d → K)
+    (heig : ∀ i, Spectral.IsTopEig (Mat.toM (localCentered (flatKernel A b T) (nb i))) (Mat.toM (U i)) (lam i))
+    (hgp : ∀ i, AffSpan (nb i) T)
+    (hconn : ∀ i i', Relation.ReflTransGen (Overlap nb T) i i') (hcover : ∀ j, ∃ i a, nb i a = j)
+    (v : Fin N → K) :
+    (Mat.toM (ltsaM nb rsk U shift) - shift • (1 : Matrix (Fin N) (Fin N) K)).mulVec v = 0 ↔ IsAffine T v := by
+  constructor
+  · intro hv
+    exact affine_of_locally_affine nb T v
+      (ltsa_null_locally_affine nb rsk U shift A hA b T h1 lam heig hgp v hv) hconn hcover
+  · rintro ⟨c0, w, hw⟩
+    have : v = fun j => c0 + ∑ c, T j c * w c := funext hw
+    rw [this]
+    exact ltsa_affine_in_nullspace nb rsk U shift A hA b T h1 lam heig hgp c0 w
+
+/-- **The property's last sentence for LTSA**: for samples on a `d`-dimensional affine subspace (general position, connected
+    overlapping cover), with the local eigensolver contract and any full ascending orthonormal eigensystem `(V, lam')` of the
+    assembled matrix (the dense solver's contract), **every column returned after skipping the first eigenvector
+    (`skip = 1`, columns `1 … d`) is an affine function of the intrinsic coordinates** — and so is the skipped one.
+    (The bottom eigenvalue `shift` has multiplicity exactly `d + 1` here, so the skipped column need not be the constant.) -/
+theorem ltsa_columns_affine_on_flat (nb : Fin N → Fin k → Fin N) (rsk : K) (U : Fin N → Mat k d K) (shift : K)
+    (A : Matrix (Fin D) (Fin d) K) (hA : ∀ v : Fin d → K, A *ᵥ v = 0 → v = 0) (b : Fin D → K)
+    (T : Fin N → Fin d → K) (h1 : rsk * rsk * (k : K) = 1) (lam : Fin N → Fin d → K)
+    (heig : ∀ i, Spectral.IsTopEig (Mat.toM (localCentered (flatKernel A b T) (nb i))) (Mat.toM (U i)) (lam i))
+    (hgp : ∀ i, AffSpan (nb i) T)
+    (hconn : ∀ i i', Relation.ReflTransGen (Overlap nb T) i i') (hcover : ∀ j, ∃ i a, nb i a = j)
+    (V : Matrix (Fin N) (Fin N) K) (lam' : Fin N → K)
+    (hsys : GenEigSystem (Mat.toM (ltsaM nb rsk U shift)) 1 V lam') (hd : 1 + d ≤ N) :
+    (∀ j : Fin N, j.1 < d + 1 → lam' j = shift ∧ IsAffine T (fun i => V i j)) ∧
+    ∀ c : Fin d, IsAffine T (fun i => cols V (shiftIdx 1 hd) i c) := by
+  have hk0 : 0 < k := by
+    rcases Nat.eq_zero_or_pos k with h0 | h0
+    · subst h0
+      simp at h1
+    · exact h0
+  have horth := flat_local_orthonormal A hA b T nb rsk h1 hgp U lam heig
+  have hge : ∀ j, shift ≤ lam' j :=
+    psd_eigenvalues_ge _ V lam' hsys shift fun x =>
+      rayleigh_of_shift_psd _ shift x (ltsa_psd nb rsk U shift horth x)
+  have hF : ∀ w : Fin (d + 1) → K, Mat.toM (ltsaM nb rsk U shift) *ᵥ (affBasis T *ᵥ w)
+      = shift • (affBasis T *ᵥ w) := by
+    intro w
+    have h0 := ltsa_affine_in_nullspace nb rsk U shift A hA b T h1 lam heig hgp (w 0) (fun c => w c.succ)
+    have e : (fun j => w 0 + ∑ c, T j c * w c.succ) = affBasis T *ᵥ w := funext fun j => (affBasis_mulVec T w j).symm
+    rw [e, Matrix.sub_mulVec, Matrix.smul_mulVec, Matrix.one_mulVec, sub_eq_zero] at h0
+    exact h0
+  have hinj := affBasis_injective (nb ⟨0, by omega⟩) T hk0 (hgp ⟨0, by omega⟩)
+  have hbot := bottom_eigs_of_null _ V lam' hsys shift hge (affBasis T) hF hinj
+  have hall : ∀ j : Fin N, j.1 < d + 1 → lam' j = shift ∧ IsAffine T (fun i => V i j) := by
+    intro j hj
+    refine ⟨hbot j hj, ?_⟩
+    apply (ltsa_nullspace_exact nb rsk U shift A hA b T h1 lam heig hgp hconn hcover _).1
+    have := eigen_equation_col hsys j
+    rw [hbot j hj, Matrix.one_mulVec] at this
+    rw [Matrix.sub_mulVec, Matrix.smul_mulVec, Matrix.one_mulVec, this, sub_self]
+  refine ⟨hall, fun c => ?_⟩
+  have := (hall (shiftIdx 1 hd c) (by simp only [shiftIdx]; have := c.2; omega)).2
+  exact this
+
+end FlatLtsa
+
+/-! ### non-vacuity of the flat-manifold theorems over ℚ (`d = 1`, samples `x_j = (3 t_j + 1, 4 t_j − 2)` in the plane)
+
+* `N = 4`, `t = (1, −1, 7, −7)`, every neighbourhood the whole sample (`k = N`): ALL hypotheses of
+  `ltsa_columns_affine_on_flat` hold, including the solver contract `GenEigSystem` for the model matrix itself
+  (`M − shift = 4 (I − P)`, eigenvalues `shift + (0, 0, 4, 4)`, rational orthonormal eigenvectors).
+* `N = 5`, `t = (1, −1, 7, −7, 17)`, two DIFFERENT neighbourhoods `{0,1,2,3}` (samples 0–2) and `{1,2,3,4}` (samples 3, 4)
+  sharing the three samples `1, 2, 3`: the data-side hypotheses of `ltsa_nullspace_exact` (local contract on both
+  neighbourhoods — norms 10 and 18 —, general position, overlap, cover).
+The local eigensolver contract `IsTopEig` is obtained from the exact certificate (`Cert.certTopEig_sound_zero` + `decide`). -/
+
+def flA : Matrix (Fin 2) (Fin 1) ℚ := !![3; 4]
+def flb : Fin 2 → ℚ := ![1, -2]
+
+theorem flA_inj : ∀ v : Fin 1 → ℚ, flA *ᵥ v = 0 → v = 0 := by
+  intro v hv
+  have h0 := congrFun hv 0
+  simp [flA, Matrix.mulVec, dotProduct] at h0
+  funext c
+  rw [Subsingleton.elim c 0]
+  simpa using h0
+
+def flT4 : Fin 4 → Fin 1 → ℚ := fun j _ => ![1, -1, 7, -7] j
+def flNb4 : Fin 4 → Fin 4 → Fin 4 := fun _ a => a
+def flU4 : Fin 4 → Mat 4 1 ℚ := fun _ a _ => ![1 / 10, -1 / 10, 7 / 10, -7 / 10] a
+def flLam4 : Fin 4 → Fin 1 → ℚ := fun _ _ => 2500
+
+theorem fl4_heig : ∀ i, Spectral.IsTopEig (Mat.toM (localCentered (flatKernel flA flb flT4) (flNb4 i)))
+    (Mat.toM (flU4 i)) (flLam4 i) := fun i =>
+  Cert.certTopEig_sound_zero _ (by revert i; decide +kernel) (flU4 i) (flLam4 i) (by revert i; decide +kernel)
+
+theorem fl4_hgp : ∀ i, AffSpan (flNb4 i) flT4 := fun i =>
+  affSpan_of_two (flNb4 i) flT4 0 1 (by revert i; decide +kernel)
+
+theorem fl4_hconn : ∀ i i', Relation.ReflTransGen (Overlap flNb4 flT4) i i' := fun i i' =>
+  Relation.ReflTransGen.single (overlap_of_two flNb4 flT4 i i' 0 0 1 1 rfl rfl (by revert i; decide +kernel))
+
+def flV4 : Matrix (Fin 4) (Fin 4) ℚ :=
+  !![1 / 2, 1 / 10, 1 / 2, -7 / 10; 1 / 2, -1 / 10, 1 / 2, 7 / 10; 1 / 2, 7 / 10, -1 / 2, 1 / 10;
+     1 / 2, -7 / 10, -1 / 2, -1 / 10]
+def flLam4' : Fin 4 → ℚ := ![1 / 10, 1 / 10, 1 / 10 + 4, 1 / 10 + 4]
+
+theorem fl4_hsys : SpectralLocal.GenEigSystem (Mat.toM (ltsaM flNb4 (1 / 2) flU4 (1 / 10))) 1 flV4 flLam4' := by
+  refine ⟨by decide +kernel, by decide +kernel, ?_⟩
+  unfold Monotone
+  decide +kernel
+
+/-- every hypothesis of `ltsa_columns_affine_on_flat` (hence of `ltsa_affine_in_nullspace`, `ltsa_nullspace_exact`) holds … -/
+example : (∀ v : Fin 1 → ℚ, flA *ᵥ v = 0 → v = 0) ∧ ((1 / 2 : ℚ) * (1 / 2) * ((4 : Nat) : ℚ) = 1) ∧
+    (∀ i, Spectral.IsTopEig (Mat.toM (localCentered (flatKernel flA flb flT4) (flNb4 i))) (Mat.toM (flU4 i)) (flLam4 i)) ∧
+    (∀ i, AffSpan (flNb4 i) flT4) ∧ (∀ i i', Relation.ReflTransGen (Overlap flNb4 flT4) i i') ∧
+    (∀ j, ∃ i a, flNb4 i a = j) ∧
+    SpectralLocal.GenEigSystem (Mat.toM (ltsaM flNb4 (1 / 2) flU4 (1 / 10))) 1 flV4 flLam4' ∧ 1 + 1 ≤ 4 :=
+  ⟨flA_inj, by norm_num, fl4_heig, fl4_hgp, fl4_hconn, by decide, fl4_hsys, by decide⟩
+
+/-- … and the conclusion, instantiated: the returned column (column 1 of `flV4`, `t/10`) is affine in `t` -/
+example : ∀ c : Fin 1, IsAffine flT4 (fun i => SpectralLocal.cols flV4 (SpectralLocal.shiftIdx 1 (by decide : 1 + 1 ≤ 4)) i c) :=
+  (ltsa_columns_affine_on_flat flNb4 (1 / 2) flU4 (1 / 10) flA flA_inj flb flT4 (by norm_num) flLam4 fl4_heig fl4_hgp
+    fl4_hconn (by decide) flV4 flLam4' fl4_hsys (by decide)).2
+
+def flT5 : Fin 5 → Fin 1 → ℚ := fun j _ => ![1, -1, 7, -7, 17] j
+def flNb5 : Fin 5 → Fin 4 → Fin 5 := fun i a => if i.1 < 3 then a.castSucc else a.succ
+def flU5 : Fin 5 → Mat 4 1 ℚ := fun i a _ =>
+  if i.1 < 3 then ![1 / 10, -1 / 10, 7 / 10, -7 / 10] a else ![-5 / 18, 3 / 18, -11 / 18, 13 / 18] a
+def flLam5 : Fin 5 → Fin 1 → ℚ := fun i _ => if i.1 < 3 then 2500 else 8100
+/-- local index of the shared samples `1` and `2` in the neighbourhood of `i` -/
+def flIdx1 : Fin 5 → Fin 4 := fun i => if i.1 < 3 then 1 else 0
+def flIdx2 : Fin 5 → Fin 4 := fun i => if i.1 < 3 then 2 else 1
+
+example : (∀ i, Spectral.IsTopEig (Mat.toM (localCentered (flatKernel flA flb flT5) (flNb5 i))) (Mat.toM (flU5 i)) (flLam5 i)) ∧
+    (∀ i, AffSpan (flNb5 i) flT5) ∧ (∀ i i', Relation.ReflTransGen (Overlap flNb5 flT5) i i') ∧
+    (∀ j, ∃ i a, flNb5 i a = j) := by
+  refine ⟨fun i => ?_, fun i => ?_, fun i i' => ?_, by decide⟩
+  · exact Cert.certTopEig_sound_zero _ (by revert i; decide +kernel) (flU5 i) (flLam5 i) (by revert i; decide +kernel)
+  · exact affSpan_of_two (flNb5 i) flT5 (flIdx1 i) (flIdx2 i) (by revert i; decide +kernel)
+  · exact Relation.ReflTransGen.single (overlap_of_two flNb5 flT5 i i' (flIdx1 i) (flIdx1 i') (flIdx2 i) (flIdx2 i')
+      (by revert i i'; decide) (by revert i i'; decide) (by revert i; decide +kernel))
+
+/-! ## Flat manifold, HLLE -/
+
+section FlatHlle
+variable {K : Type} [Field K] [LinearOrder K] [IsStrictOrderedRing K] {N k d D : Nat}
+
+/-- **HLLE on flat data, inclusion `⊇`, from data-side hypotheses only**: with the local eigensolver contract on flat data
+    (`heig`), an exact square root and no vanishing Gram–Schmidt remainder (`GsExact`) and a non-negative column-sum threshold,
+    every affine function of the intrinsic coordinates is a null vector of the assembled Hessian alignment matrix.
+    (General position is implicit in `GsExact`: the columns `[1 | U | products]` are independent.) -/
+theorem hlle_affine_in_nullspace (nb : Fin N → Fin k → Fin N) (sqrtO : K → K) (thr : K) (U : Fin N → Mat k d K)
+    (A : Matrix (Fin D) (Fin d) K) (hA : ∀ v : Fin d → K, A *ᵥ v = 0 → v = 0) (b : Fin D → K)
+    (T : Fin N → Fin d → K) (hk : (k : K) ≠ 0) (lam : Fin N → Fin d → K)
+    (heig : ∀ i, Spectral.IsTopEig (Mat.toM (localCentered (flatKernel A b T) (nb i))) (Mat.toM (U i)) (lam i))
+    (hthr : 0 ≤ thr) (hE : ∀ i, GsExact sqrtO [] (hlleYi0 (U i))) (c0 : K) (w : Fin d → K) :
+    ∀ M', hlleM nb sqrtO thr U = .ok M' → (Mat.toM M').mulVec (fun j => c0 + ∑ c, T j c * w c) = 0 := by
+  intro M' hM
+  rw [hlleM_eq_ok (hlle_index_ok d)] at hM
+  cases hM
+  have hflat := flat_local_span A hA b T nb hk U lam heig
+  refine hlle_null_of_local nb sqrtO thr U _ fun s q hq => ?_
+  have hgs := (hlle_gs_contract sqrtO thr (not_lt.2 hthr) (U s) (hE s)).2 q hq
+  simp only [affine_of_hflat T (nb s) (U s) _ _ (hflat s) c0 w]
+  exact hlle_local_affine q (U s) _ _ hgs.1 hgs.2
+
+/-- **HLLE, the first half of the reverse inclusion (`_partial`)**: a null vector of the assembled matrix is, on every
+    neighbourhood, orthogonal to every column of `H_i = Yi.rightCols(dp)` (every summand `S_i H_i H_iᵀ S_iᵀ` is PSD).
+    MISSING for exactness: that this forces local affinity — true when `k = 1 + d + dp` (then `H_i` completes `[1 | U_i]` to an
+    orthonormal basis), a genericity (rank) condition on the sample otherwise; see the FULL STATEMENT comment above. -/
+theorem hlle_null_local_partial (nb : Fin N → Fin k → Fin N) (sqrtO : K → K) (thr : K) (U : Fin N → Mat k d K)
+    (v : Fin N → K) :
+    ∀ M', hlleM nb sqrtO thr U = .ok M' → (Mat.toM M').mulVec v = 0 →
+      ∀ s, ∀ q ∈ hlleH sqrtO thr (U s), ∑ b, q.get b * v (nb s b) = 0 := by
+  intro M' hM hv
+  rw [hlleM_eq_ok (hlle_index_ok d)] at hM
+  cases hM
+  exact hlle_null_local nb sqrtO thr U v hv
+
+end FlatHlle
+
+/-- non-vacuity of `hlle_affine_in_nullspace` over ℚ: the `N = 4` flat data set above with the orthonormal local eigenvector
+    `U = (1,−1,7,−7)ᵀ/10`; the square root is exact on the three squared norms that occur (`4`, `1`, `2304/10000`) -/
+example :
+    let sqrtO : ℚ → ℚ := fun x => if x = 4 then 2 else if x = 1 then 1 else if x = 2304 / 10000 then 12 / 25 else 1
+    (((4 : Nat) : ℚ) ≠ 0) ∧ (0 ≤ (1 / 10000 : ℚ)) ∧ (∀ i, GsExact sqrtO [] (hlleYi0 (flU4 i))) ∧
+    (∀ i, (hlleH sqrtO (1 / 10000) (flU4 i)).map (fun h => (List.finRange 4).map h.get) = [[-1/2, -1/2, 1/2, 1/2]]) := by
+  intro sqrtO
+  refine ⟨by norm_num, by norm_num, by decide +kernel, by decide +kernel⟩
+
 
 
 end TapkeeVerif.C08
